@@ -52,6 +52,13 @@ m("M-bind-fresh", "C17", "G-bind", ("x/did/keeper/msg_server_binding.go", "if pr
 m("M-capdid", "C17", "CAP-did", ("x/sao/keeper/msg_server_store.go", "\tif proposal.PaymentDid != \"\" {\n\t\torder.PaymentDid = proposal.PaymentDid\n\t}\n", "\tif proposal.PaymentDid != \"\" {\n\t\torder.PaymentDid = proposal.PaymentDid\n\t\tk.did.SetKidForPayer(ctx, msg.Creator, proposal.PaymentDid)\n\t}\n"),
   ("x/sao/types/expected_keepers.go", "\tValidDid(ctx sdk.Context, did string) error\n", "\tValidDid(ctx sdk.Context, did string) error\n\tSetKidForPayer(ctx sdk.Context, addr string, did string)\n"),
   ("x/did/keeper/did_management.go", "func (k Keeper) ValidDid(", "func (k Keeper) SetKidForPayer(ctx sdk.Context, addr string, did string) {\n\tk.SetKid(ctx, types.Kid{Address: addr, Kid: did})\n}\n\nfunc (k Keeper) ValidDid("))
+# ---------------------------------------------------------------- C20
+m("M27", "C20", "G-hooks", ("x/node/keeper/hooks.go", "func (hook Hooks) AfterDelegationModified(ctx sdk.Context, delAddr sdk.AccAddress, valAddr sdk.ValAddress) error {\n", "func (hook Hooks) AfterDelegationModified(ctx sdk.Context, delAddr sdk.AccAddress, valAddr sdk.ValAddress) error {\n\tif delAddr.Empty() {\n\t\treturn nil\n\t}\n"))
+m("M28", "C20", "G-promote", ("x/node/keeper/msg_server_add_vstorage.go", "if pledge.TotalStorage >= k.VstorageThreshold(ctx) {", "if pledge.TotalStorage >= k.VstorageThreshold(ctx) || msg.Size_ > 1<<40 {"))
+m("M28b", "C20", "G-promote", ("x/node/keeper/msg_server_reset.go", "if found && pledge.TotalStorage >= k.VstorageThreshold(ctx) {", "if found {"))
+m("M-demote1", "C20", "G-demote", ("x/node/keeper/hooks.go", "\t\t\tif !found || pledge.TotalStorage < hook.k.VstorageThreshold(ctx) {\n\t\t\t\tif node.Role == types.NODE_SUPER {\n\t\t\t\t\thook.k.SetNormalNode(ctx, node.Creator)\n\t\t\t\t}\n\t\t\t\tcontinue", "\t\t\tif !found || pledge.TotalStorage < hook.k.VstorageThreshold(ctx) {\n\t\t\t\tcontinue"))
+m("M-demote2", "C20", "G-demote", ("x/node/keeper/msg_server_remove_vstorage.go", "\t// check super node\n\tif pledge.TotalStorage < k.VstorageThreshold(ctx) {", "\t// check super node\n\tif pledge.TotalStorage+size.Int64() < k.VstorageThreshold(ctx) {"))
+m("M-reset-role", "C20", "G-demote", ("x/node/keeper/msg_server_reset.go", "\tnode.Role = types.NODE_NORMAL\n\tif msg.Status", "\tif msg.Status"))
 # ---------------------------------------------------------------- C01 / C03
 m("M17", "C03", "D3", ("x/node/keeper/node.go", "func (k Keeper) SetNode(ctx sdk.Context, node types.Node) {\n",
    "var nodeCache = map[string]types.Node{}\n\nfunc (k Keeper) SetNode(ctx sdk.Context, node types.Node) {\n\tnodeCache[node.Creator] = node\n"))
@@ -78,6 +85,19 @@ m("C-3", "C02", "", ("x/node/keeper/node.go", "\tfor ; iterator.Valid(); iterato
 m("C-4", "C09", "", ("x/sao/keeper/msg_server_terminate.go", '"No permission to delete the model"', '"permission denied: model deletion"'))
 m("C-1", "C10", "", ("x/sao/keeper/msg_server_ready.go", "order, found := k.order.GetOrder(ctx, msg.OrderId)\n\tif !found {", "o, ok := k.order.GetOrder(ctx, msg.OrderId)\n\torder := o\n\tfound := ok\n\tif !found {"))
 
+# patch-file mutants / controls: (id, property, expected rule or "" for silent, patch path)
+P = [
+ ("C-5", "C19", "", "/verif/tools/controls/C-5-faithful-helper-reportfaults.diff"),
+ ("S-C01-a1", "C01", "D2", "/verif/seeded/C01-a1/patch.diff"),
+ ("S-C02-a1", "C02", "L2-couple", "/verif/seeded/C02-a1/patch.diff"),
+ ("S-C09-a1", "C09", "G-renew", "/verif/seeded/C09-a1/patch.diff"),
+ ("S-C10-a1", "C10", "G-payer", "/verif/seeded/C10-a1/patch.diff"),
+ ("S-C18-a1", "C18", "E6-all", "/verif/seeded/C18-a1/patch.diff"),
+ ("S-C19-a1", "C19", "G-fault", "/verif/seeded/C19-a1/patch.diff"),
+]
+for (id, prop, rule, path) in P:
+    M.append((id, prop, rule, [("@patch", path, "")]))
+
 def sh(cmd, **kw):
     return subprocess.run(cmd, shell=True, capture_output=True, text=True, env=ENV, **kw)
 
@@ -93,6 +113,13 @@ def main():
             continue
         ok_apply = True
         for (f, old, new) in edits:
+            if f == "@patch":
+                a = sh(f"git -C {REPO} apply {old}")
+                if a.returncode != 0:
+                    ok_apply = False
+                    print(f"{id}: PATCH DOES NOT APPLY: {a.stderr[:200]}")
+                    break
+                continue
             p = os.path.join(REPO, f)
             s = open(p).read()
             if old not in s:
